@@ -51,8 +51,23 @@ fn run<const B: usize, const L: usize>(p: &[&str]) -> String {
     }
 }
 
+/// word primitives (pub in ruint::algorithms): `w_cadd a b carry`, `w_bsub a b borrow`
+fn word(p: &[&str]) -> String {
+    let a = u64::from_str_radix(p[2], 16).unwrap();
+    let c = u64::from_str_radix(p[3], 16).unwrap();
+    let f = p[4] == "t";
+    let (r, o) = match p[0] {
+        "w_cadd" => ruint::algorithms::carrying_add(a, c, f),
+        _ => ruint::algorithms::borrowing_sub(a, c, f),
+    };
+    format!("{:x} {}", r, b(o))
+}
+
 fn main() {
     run_lines(|p| {
+        if p[0].starts_with("w_") {
+            return word(p);
+        }
         let bits: usize = p[1].parse().unwrap();
         dispatch_bits!(bits, run, (p), [0, 1, 2, 3, 4, 5, 6, 7, 8, 12, 16, 31, 32, 33, 60, 63, 64, 65, 72, 96,
             100, 127, 128, 129, 160, 192, 200, 250, 255, 256, 257, 320, 384, 512, 521, 1024, 4096])
